@@ -140,7 +140,7 @@ def run(run):
         lambda v: rw.int_be(v, 2, True))
     add('UnsignedShort', T.UnsignedShort, range(65536),
         lambda v: rw.int_be(v, 2, False))
-    nrand = 20000 if thorough else 1500
+    nrand = 60000 if thorough else 2500
     add('Integer', T.Integer, int_boundaries(32, True) + [
         rng.randrange(-2 ** 31, 2 ** 31) for _ in range(nrand)],
         lambda v: rw.int_be(v, 4, True))
